@@ -143,7 +143,6 @@ EXTRA = [
     ("C05", "underscore-sign-swapped", "pdpy11/operators.py",
      "    if b >= 0:\n        return a << b\n    else:\n        return a >> -b",
      "    if b <= 0:\n        return a << -b\n    else:\n        return a >> b"),
-    ("C05", "caret-D-read-as-octal", "pdpy11/parser.py", r'("^D", "A decimal", r"\d", 10)', r'("^D", "A decimal", r"\d", 8)'),
     ("C05", "two-char-literal-big-endian", "pdpy11/types.py",
      '        self.evaluated_value = struct.unpack("<H", bytes_value)[0]',
      '        self.evaluated_value = struct.unpack(">H" if len(self.string) == 2 else "<H", bytes_value)[0]'),
